@@ -424,29 +424,124 @@ func c01r3(c *core.Ctx) {
 		}
 	}
 
-	// (3) session keys derive from the remote address
+	// (3) session keys identify ONE live connection: the remote address alone does not — a listener on several local addresses
+	// (the default: all of them) can have two live connections with the same remote address and port, one per local address, and the
+	// later one takes over the session entry of the earlier: an unverified connection then finds the verified session of another.
+	// The key is built from both ends of the connection, the same way from the socket (GetKey) and from the request
+	// (GetConnectionKey: Request.RemoteAddr and the local address net/http puts into the request context).
 	ctxT := "(*" + mod + "/hap.context)"
-	if f := p.Func("hap", "(*context).GetKey"); f != nil {
-		ok := returnsOnly(f, func(v ssa.Value) bool {
-			call, isCall := v.(*ssa.Call)
-			if !isCall || !core.IsInvoke(call, "net.Addr", "String") {
-				return false
+	leaves := func(v ssa.Value) []ssa.Value {
+		var out []ssa.Value
+		var walk func(x ssa.Value, d int)
+		walk = func(x ssa.Value, d int) {
+			if mi, ok := x.(*ssa.MakeInterface); ok {
+				x = mi.X
 			}
-			return core.AnySource(call.Call.Value, func(s ssa.Value) bool {
-				c2, ok := s.(*ssa.Call)
-				return ok && core.IsInvoke(c2, "net.Conn", "RemoteAddr") && valIs(c2.Call.Value, f.Params[1])
-			})
+			if b, ok := x.(*ssa.BinOp); ok && b.Op == token.ADD && d > 0 {
+				walk(b.X, d-1)
+				walk(b.Y, d-1)
+				return
+			}
+			out = append(out, x)
+		}
+		walk(v, 6)
+		return out
+	}
+	sepOf := func(ls []ssa.Value) string {
+		sep := ""
+		for _, l := range ls {
+			if k, ok := core.ConstString(l); ok {
+				sep += k
+			}
+		}
+		return sep
+	}
+	var sepConn, sepReq string
+	if f := p.Func("hap", "(*context).GetKey"); f != nil {
+		remote, local, other := false, false, false
+		nret := 0
+		core.Instrs(f, func(i ssa.Instruction) {
+			r, isR := i.(*ssa.Return)
+			if !isR || len(res(r)) != 1 {
+				return
+			}
+			nret++
+			ls := leaves(res(r)[0])
+			sepConn = sepOf(ls)
+			for _, l := range ls {
+				if _, isK := core.ConstString(l); isK {
+					continue
+				}
+				call, isCall := l.(*ssa.Call)
+				if isCall && core.IsInvoke(call, "net.Addr", "String") {
+					if core.AnySource(call.Call.Value, func(s ssa.Value) bool {
+						c2, ok := s.(*ssa.Call)
+						return ok && core.IsInvoke(c2, "net.Conn", "RemoteAddr") && valIs(c2.Call.Value, f.Params[1])
+					}) {
+						remote = true
+						continue
+					}
+					if core.AnySource(call.Call.Value, func(s ssa.Value) bool {
+						c2, ok := s.(*ssa.Call)
+						return ok && core.IsInvoke(c2, "net.Conn", "LocalAddr") && valIs(c2.Call.Value, f.Params[1])
+					}) {
+						local = true
+						continue
+					}
+				}
+				if valIs(l, f.Params[1]) {
+					remote, local = true, true // the connection object itself
+					continue
+				}
+				other = true
+			}
 		})
-		c.Check(ok, "key:"+ctxT+".GetKey", f.Pos(), "connection key = c.RemoteAddr().String()", "GetKey does not derive the key from the connection's remote address: sessions of different connections can collide")
+		c.Check(remote && !other && nret == 1, "key:"+ctxT+".GetKey", f.Pos(), "connection key is built from c.RemoteAddr()", "GetKey does not derive the key from the connection's remote address: sessions of different connections can collide")
+		c.Check(local && !other && nret == 1, "key-unique:"+ctxT+".GetKey", f.Pos(), "connection key is built from both the remote and the local address of the connection", "the session key of a connection is its remote address alone: on a listener with several local addresses two live connections can have the same remote address and port (one per local address); the later one replaces the session entry of the earlier, and an unverified connection is served with the verified session of another")
 	} else {
 		c.Undecided("key:GetKey", token.NoPos, "(*context).GetKey not found")
 	}
 	if f := p.Func("hap", "(*context).GetConnectionKey"); f != nil {
-		ok := returnsOnly(f, func(v ssa.Value) bool {
-			base, ok := core.FieldLoad(v, "net/http.Request", "RemoteAddr")
-			return ok && valIs(base, f.Params[1])
+		good, full := true, false
+		core.Instrs(f, func(i ssa.Instruction) {
+			r, isR := i.(*ssa.Return)
+			if !isR || len(res(r)) != 1 {
+				return
+			}
+			ls := leaves(res(r)[0])
+			remote, local := false, false
+			for _, l := range ls {
+				if _, isK := core.ConstString(l); isK {
+					continue
+				}
+				if base, ok := core.FieldLoad(l, "net/http.Request", "RemoteAddr"); ok && valIs(base, f.Params[1]) {
+					remote = true
+					continue
+				}
+				if call, isCall := l.(*ssa.Call); isCall && core.IsInvoke(call, "net.Addr", "String") {
+					fromCtx := false
+					walkOperands(call.Call.Value, 8, func(x ssa.Value) {
+						if g, ok := x.(*ssa.Global); ok && g.Name() == "LocalAddrContextKey" {
+							fromCtx = true
+						}
+					})
+					if fromCtx {
+						local = true
+						continue
+					}
+				}
+				good = false
+			}
+			if !remote {
+				good = false
+			}
+			if remote && local {
+				full = true
+				sepReq = sepOf(ls)
+			}
 		})
-		c.Check(ok, "key:"+ctxT+".GetConnectionKey", f.Pos(), "request key = r.RemoteAddr", "GetConnectionKey does not derive the key from the request's remote address")
+		c.Check(good, "key:"+ctxT+".GetConnectionKey", f.Pos(), "request key is built from r.RemoteAddr", "GetConnectionKey does not derive the key from the request's remote address")
+		c.Check(good && full && sepReq == sepConn, "key-unique:"+ctxT+".GetConnectionKey", f.Pos(), "request key is built from r.RemoteAddr and the local address of the connection, like the connection key", "the key under which a request looks up its session is not built from both ends of the connection in the same way as the key of the connection itself (remote address, separator, local address): requests find the session of another connection, or none")
 	} else {
 		c.Undecided("key:GetConnectionKey", token.NoPos, "(*context).GetConnectionKey not found")
 	}
